@@ -94,3 +94,82 @@ func VH_C06_reject() {
 		vAssert("C06.nocollection.no_files", len(vListDir(root)) == 0)
 	}
 }
+
+// VH_C06_fault: a single storage fault injected at any file-system step
+// of a write never makes the database diverge silently: either the
+// observable state stays self-consistent, or Control reports corruption
+// and Repair restores agreement.
+func VH_C06_fault() {
+	cfg := vhCfgs[vChoice("cfg", vBound("CFG", 2))] // base, cache
+	db, root := vhOpenDB(cfg)
+	base := vhNewObj()
+	vAssert("C06.fault.pre", db.InsertOrUpdate(base) == nil)
+	op := vChoice("op", 4)
+	failAt := vLen("failat", 0, vBound("K", 9))
+	n1 := &vObj{A: vInt64("newA"), S: "s", U: 77}
+	n2 := &vObj{A: vInt64("newA2"), S: "s", U: 78}
+	vFsFailAt(failAt)
+	switch op {
+	case 0:
+		db.InsertOrUpdate(n1)
+	case 1:
+		n1.Initialize(base.UUID())
+		db.InsertOrUpdate(n1)
+	case 2:
+		d := &vObj{}
+		d.Initialize(base.UUID())
+		db.Delete(d)
+	case 3:
+		db.InsertOrUpdateMany(n1, n2)
+	}
+	hit := vFsFaultHit()
+	vFsFailAt(-1)
+	if !hit {
+		return
+	}
+	cerr := db.Control()
+	if cerr != nil {
+		vAssert("C06.fault.control_class", IsIndexCorrupted(cerr))
+		if !IsIndexCorrupted(cerr) {
+			return
+		}
+		vAssert("C06.fault.repair", db.Repair(&vObj{}) == nil)
+		vAssert("C06.fault.control_after_repair", db.Control() == nil)
+	}
+	// Control is satisfied: nothing may have diverged silently
+	objs, aerr := db.All(&vObj{})
+	vAssert("C06.fault.no_unreadable_object", aerr == nil)
+	if aerr != nil {
+		return
+	}
+	for _, o := range objs {
+		v := o.(*vObj)
+		s := db.Search(&vObj{}, "A", "=", v.A)
+		found := false
+		if s.Err() == nil {
+			res, cerr := s.Collect()
+			if cerr == nil {
+				for _, r := range res {
+					if r.UUID() == v.UUID() {
+						found = true
+					}
+				}
+			}
+		}
+		vAssert("C06.fault.index_agrees_with_read", found)
+	}
+	// what this handle reports is what is on disk (a fresh handle agrees)
+	vAssert("C06.fault.commit", db.Commit(&vObj{}) == nil)
+	fresh := Open(root)
+	fobjs, ferr := fresh.All(&vObj{})
+	vAssert("C06.fault.fresh_readable", ferr == nil && len(fobjs) == len(objs))
+	if ferr == nil {
+		for _, o := range objs {
+			g := vhC05Contains(fobjs, o.UUID())
+			vAssert("C06.fault.fresh_has", g != nil)
+			if g != nil {
+				vAssert("C06.fault.handle_equals_disk", vhFieldsEq(g, o.(*vObj)))
+			}
+		}
+	}
+}
